@@ -1,9 +1,10 @@
 ---------------------------- MODULE MCStateFile ----------------------------
 EXTENDS StateFile
-WitInit == TLCSet(1, FALSE) /\ TLCSet(2, FALSE)
-Wit == /\ ((crashes = 1 /\ sinceCrash = 0 /\ everComplete) => TLCSet(1, TRUE))
-       /\ ((writes >= 2) => TLCSet(2, TRUE))
-WitPost == TLCGet(1) /\ TLCGet(2)
-MCInit == SFInit /\ WitInit
+\* vacuity witnesses: the check searches a state satisfying each Witness<i> (a violation of NoWitness<i>)
+Witness1 == crashes = 1 /\ sinceCrash = 0 /\ everComplete
+NoWitness1 == ~Witness1
+Witness2 == writes >= 2
+NoWitness2 == ~Witness2
+MCInit == SFInit
 MCSpec == MCInit /\ [][SFNext]_sfvars
 =============================================================================
